@@ -373,10 +373,17 @@ func cmdCheck(args []string) {
 					if strings.HasPrefix(kv, "evaluated=") {
 						evaluated = strings.TrimPrefix(kv, "evaluated=")
 					}
+					if strings.HasPrefix(kv, "cases=") {
+						evaluated = strings.TrimPrefix(kv, "cases=")
+					}
 					if strings.HasPrefix(kv, "failures=") {
 						nfail = strings.TrimPrefix(kv, "failures=")
 					}
 				}
+			}
+			if strings.HasPrefix(l, "FAILING-CASE ") && firstIn == "" {
+				firstIn = strings.TrimPrefix(l, "FAILING-CASE ")
+				firstMsg = "the property-level oracle fails on this case against the real code"
 			}
 			if strings.HasPrefix(l, "FAILING-INPUT ") && firstIn == "" {
 				rest := strings.TrimPrefix(l, "FAILING-INPUT ")
